@@ -85,9 +85,16 @@ class X509:
         t2, oid, _, _ = rd(alg, 0)
         self.sig_oid = oid
         t, sigbits, o, _ = rd(cert, o)
-        if t != 0x03 or sigbits[0] != 0:
+        if t != 0x03 or not sigbits or sigbits[0] > 7:
             raise DerError("signature")
+        # BIT STRING: the first octet counts unused bits at the end. DER wants 0 here for a signature,
+        # but the library under the code (OpenSSL through `cryptography`) reads BER: it accepts 1..7
+        # and drops those bits. The reference does the same, so that an altered count which leaves
+        # the signature what it was is "the same certificate" for both sides.
         self.signature = sigbits[1:]
+        if sigbits[0] and self.signature:
+            self.signature = self.signature[:-1] + bytes(
+                [self.signature[-1] & (0xFF << sigbits[0]) & 0xFF])
         # walk the tbs
         p = 0
         t, v, nxt, _ = rd(tbs, p)
